@@ -5,7 +5,8 @@
 //! Case line:
 //!   <label> CFG <pool_deposit> <key_deposit> <prefer_pure 0|1> <do_not_burn 0|1> <coins_per_byte> <max_value_size> <max_tx_size> <fee_a> <fee_b>
 //!           U <n> { <id> VALUE }*   OPS <n> { OP }*
-//!   VALUE := <coin> <k|~> { <policy hex> <name hex|-> <qty> }*k          (~ = no multiasset; entries applied with set_asset)
+//!   VALUE := <coin> <k|~> { <policy hex> <name hex|-|!> <qty> }*k        (~ = no multiasset; entries applied with set_asset;
+//!            name `!` = MultiAsset::insert(policy, empty Assets), i.e. `policy => {}`)
 //!   OP    := in <id> | out <addr> <extra> VALUE | certs <n|~> { <tag> <coin|~> }* | wd <n|~> { <addr> <coin> }*
 //!          | props <n|~> { <deposit> }* | mint <overwrite 0|1> <policy hex> <name hex|-> <amount>
 //!          | don <c> | treas <c> | fee <c> | minfee <c> | change <addr> <extra>
@@ -18,6 +19,7 @@
 //!          | dmint <scripts 0|1> <k> { <policy> <name> <amount> }*  set_mint (deprecated)
 //!          | dcerts <k> { <tag> <coin|~> <script 0|1> }*           set_certs (deprecated)
 //!          | dwd <k> { <addr> <coin> <script 0|1> }*               set_withdrawals (deprecated)
+//!          | kprops <k> { <identity> <deposit> }*                  VotingProposalBuilder::add per item (same identity and deposit = the same proposal)
 //!   addr  = address id (>= 1; kind and bytes are a function of the id), extra = 0 none, 1 datum hash, 2 inline datum,
 //!           3 script ref, 4 inline datum + script ref.  UTxO id i is outpoint (hash(i), i mod 7) locked by key address.
 //! Result line (implementation):
@@ -210,6 +212,8 @@ fn reward_address(id: u64) -> RewardAddress { RewardAddress::new(0, &kcred(id, 1
 // ------------------------------------------------------------------------------------------------
 // scenario data
 
+/// entry (policy, EMPTY_POLICY, _) = the policy is inserted with an empty asset map (`policy => {}`); token `!` in a case line
+fn empty_policy_marker() -> Vec<u8> { vec![0xEE; 40] }
 #[derive(Clone, Debug)]
 struct Val { coin: BigNum, assets: Option<Vec<(Vec<u8>, Vec<u8>, BigNum)>> }
 impl Val {
@@ -219,6 +223,7 @@ impl Val {
         if let Some(es) = &self.assets {
             let mut ma = MultiAsset::new();
             for (p, n, q) in es {
+                if *n == empty_policy_marker() { ma.insert(&ScriptHash::from_bytes(p.clone()).unwrap(), &Assets::new()); continue; }
                 ma.set_asset(&ScriptHash::from_bytes(p.clone()).unwrap(), &AssetName::new(n.clone()).unwrap(), q);
             }
             v.set_multiasset(&ma);
@@ -231,7 +236,10 @@ impl Val {
             None => s.push_str(" ~"),
             Some(es) => {
                 s.push_str(&format!(" {}", es.len()));
-                for (p, n, q) in es { s.push_str(&format!(" {} {} {}", hex::encode(p), hex_or_dash(n), q.to_str())); }
+                for (p, n, q) in es {
+                    if *n == empty_policy_marker() { s.push_str(&format!(" {} ! 0", hex::encode(p))); }
+                    else { s.push_str(&format!(" {} {} {}", hex::encode(p), hex_or_dash(n), q.to_str())); }
+                }
             }
         }
         s
@@ -283,6 +291,7 @@ enum Op {
     DMint(bool, Vec<(Vec<u8>, Vec<u8>, String)>),
     DCerts(Vec<(u32, Option<BigNum>, bool)>),
     DWd(Vec<(u64, BigNum, bool)>),
+    KProps(Vec<(u64, BigNum)>),
 }
 fn opt_bn_s(o: &Option<BigNum>) -> String { match o { Some(v) => v.to_str(), None => "~".into() } }
 impl Op {
@@ -311,6 +320,7 @@ impl Op {
             Op::AddMint(p, n, amt) => format!("addmint {} {} {}", hex::encode(p), hex_or_dash(n), amt),
             Op::DMint(ok, es) => { let mut s = format!("dmint {} {}", *ok as u8, es.len()); for (p, n, a) in es { s.push_str(&format!(" {} {} {}", hex::encode(p), hex_or_dash(n), a)); } s }
             Op::DCerts(cs) => { let mut s = format!("dcerts {}", cs.len()); for (t, c, sc) in cs { s.push_str(&format!(" {} {} {}", t, opt_bn_s(c), *sc as u8)); } s }
+            Op::KProps(ps) => { let mut s = format!("kprops {}", ps.len()); for (i, d) in ps { s.push_str(&format!(" {} {}", i, d.to_str())); } s }
             Op::DWd(ws) => { let mut s = format!("dwd {}", ws.len()); for (a, c, sc) in ws { s.push_str(&format!(" {} {} {}", a, c.to_str(), *sc as u8)); } s }
         }
     }
@@ -342,7 +352,7 @@ impl<'a> P<'a> {
     fn val(&mut self) -> Val {
         let coin = bn(self.next());
         let assets = self.count().map(|k| (0..k).map(|_| {
-            let p = hex::decode(self.next()).unwrap(); let n = unhex_or_dash(self.next()); let q = bn(self.next()); (p, n, q) }).collect());
+            let p = hex::decode(self.next()).unwrap(); let nt = self.next(); let n = if nt == "!" { empty_policy_marker() } else { unhex_or_dash(nt) }; let q = bn(self.next()); (p, n, q) }).collect());
         Val { coin, assets }
     }
 }
@@ -380,6 +390,7 @@ fn parse(toks: &[String]) -> Scenario {
             "addmint" => { let pol = hex::decode(p.next()).unwrap(); let n = unhex_or_dash(p.next()); Op::AddMint(pol, n, p.next().to_string()) }
             "dmint" => { let ok = p.next() == "1"; let k = p.count().unwrap(); Op::DMint(ok, (0..k).map(|_| { let pol = hex::decode(p.next()).unwrap(); let n = unhex_or_dash(p.next()); (pol, n, p.next().to_string()) }).collect()) }
             "dcerts" => { let k = p.count().unwrap(); Op::DCerts((0..k).map(|_| { let t: u32 = p.next().parse().unwrap(); let c = p.opt_bn(); (t, c, p.next() == "1") }).collect()) }
+            "kprops" => { let k = p.count().unwrap(); Op::KProps((0..k).map(|_| { let i = p.u64(); (i, bn(p.next())) }).collect()) }
             "dwd" => { let k = p.count().unwrap(); Op::DWd((0..k).map(|_| { let a = p.u64(); let c = bn(p.next()); (a, c, p.next() == "1") }).collect()) }
             x => panic!("bad op {}", x),
         };
@@ -640,6 +651,13 @@ fn run_op(w: &mut World, op: &Op, last_tx: &mut Option<Transaction>) -> OpRec {
             });
             OpRec { res: res_unit(r), tape: vec![], sel: None, attempts: 0 }
         }
+        Op::KProps(ps) => {
+            // the same (identity, deposit) gives the identical VotingProposal: added twice it is in the builder once
+            let mut b = VotingProposalBuilder::new();
+            for (i, d) in ps { b.add(&mk_proposal(d, *i)).expect("proposal without script"); }
+            w.tb.set_voting_proposal_builder(&b);
+            OpRec { res: "ok".into(), tape: vec![], sel: None, attempts: 0 }
+        }
         Op::DWd(ws) => {
             let mut rw: HashMap<Vec<u8>, u64> = HashMap::new();
             let r = catch(|| -> Result<(), JsError> {
@@ -851,6 +869,33 @@ fn gen_assets(r: &mut Rng, n_assets: u64, n_pol: u64, big: bool) -> Option<Vec<(
     }
     Some(es)
 }
+/// a UTxO amount with entries that stand for nothing, in every layout: a zero quantity before / after / between positive
+/// assets of the same policy (name order: length, then bytes), several zeros, a zero-only policy next to a positive one,
+/// `policy => {}`, an all-zero multiasset, Some(empty multiasset)
+fn gen_degenerate_assets(r: &mut Rng) -> Option<Vec<(Vec<u8>, Vec<u8>, BigNum)>> {
+    let p0 = policy_bytes(r.below(N_POLICIES));
+    let p1 = policy_bytes(r.below(N_POLICIES));
+    let pos = |r: &mut Rng| b64(r.range(1, 900));
+    let (a, b, c, d): (Vec<u8>, Vec<u8>, Vec<u8>, Vec<u8>) = (b"a".to_vec(), b"b".to_vec(), b"tok".to_vec(), b"NFT-0001".to_vec());
+    let z = b64(0);
+    let mut es: Vec<(Vec<u8>, Vec<u8>, BigNum)> = match r.below(12) {
+        0 => vec![(p0.clone(), a, z), (p0.clone(), b, pos(r))],                                        // zero before
+        1 => vec![(p0.clone(), a, pos(r)), (p0.clone(), c, z)],                                        // zero after
+        2 => vec![(p0.clone(), a, pos(r)), (p0.clone(), b, z), (p0.clone(), c, pos(r))],               // zero between
+        3 => vec![(p0.clone(), a, z), (p0.clone(), b, pos(r)), (p0.clone(), c, z), (p0.clone(), d, z)], // several zeros
+        4 => vec![(p0.clone(), a, z), (p1.clone(), b, pos(r))],                                        // zero-only policy + positive policy
+        5 => vec![(p0.clone(), empty_policy_marker(), z), (p1.clone(), b, pos(r))],                    // policy => {} + positive policy
+        6 => vec![(p0.clone(), empty_policy_marker(), z)],                                             // only policy => {}
+        7 => vec![(p0.clone(), a, z), (p1.clone(), b, z)],                                             // all-zero multiasset
+        8 => vec![],                                                                                   // Some(empty multiasset)
+        9 => vec![(p0.clone(), Vec::new(), z), (p0.clone(), a, pos(r)), (p1.clone(), c, pos(r)), (p1.clone(), d, z)],
+        10 => vec![(p0.clone(), c, pos(r)), (p0.clone(), a, z)],                                       // given out of order
+        _ => { let mut v = gen_assets(r, 4, 3, false).unwrap_or_default(); if !v.is_empty() { let k = r.below(v.len() as u64) as usize; v[k].2 = b64(0); } v }
+    };
+    if r.chance(1, 4) { shuffle(r, &mut es); }
+    Some(es)
+}
+
 fn gen_cfg(r: &mut Rng) -> Cfg {
     let (a, b) = *r.pick(&[(44u64, 155381u64), (44, 155381), (44, 155381), (0, 0), (1, 0), (0, 200000), (500, 1000)]);
     Cfg { pool: b64(*r.pick(&[500_000_000u64, 0, 1, 2_000_000])), key: b64(*r.pick(&[2_000_000u64, 0, 400_000])),
@@ -862,7 +907,9 @@ fn shuffle<T>(r: &mut Rng, v: &mut Vec<T>) { for i in (1..v.len()).rev() { let j
 
 fn gen_certs(r: &mut Rng, edge: bool) -> Vec<(u32, Option<BigNum>)> {
     let n = r.range(1, 5);
-    (0..n).map(|_| { let t = r.below(19) as u32; let c = if tag_has_coin(t) { Some(b64(if edge { r.u64_edge() } else { r.range(0, 5_000_000) })) } else { None }; (t, c) }).collect()
+    // an explicit amount of exactly 0 is a value of its own (not "absent")
+    (0..n).map(|_| { let t = if r.chance(1, 4) { *r.pick(&[7u32, 8, 7, 8, 16, 17]) } else { r.below(19) as u32 };
+                     let c = if tag_has_coin(t) { Some(b64(if r.chance(1, 5) { 0 } else if edge { r.u64_edge() } else { r.range(0, 5_000_000) })) } else { None }; (t, c) }).collect()
 }
 
 /// value totals of the pieces (for steering scenarios towards a given change shape); None on overflow
@@ -875,7 +922,7 @@ fn gen_scenario(r: &mut Rng, stream: u32) -> Scenario {
     let mut post: Vec<Op> = vec![];
     let edge = stream == 6;
     let label;
-    let n_utxo = match stream { 5 => r.range(3, 40), 7 => r.range(2, 12), _ => r.range(1, 6) };
+    let n_utxo = match stream { 5 => r.range(3, 40), 7 => r.range(2, 12), 8 => r.range(1, 4), _ => r.range(1, 6) };
     let with_assets = (matches!(stream, 2 | 3 | 4 | 5) && r.chance(4, 5)) || (stream == 7 && r.chance(1, 2));
     let n_pol = r.range(1, 6);
     if stream == 3 { cfg.maxval = *r.pick(&[300u32, 200, 150, 120, 5000]); cfg.maxtx = 100000; }
@@ -884,7 +931,9 @@ fn gen_scenario(r: &mut Rng, stream: u32) -> Scenario {
         let kind = if edge { 3 } else if stream == 1 { 1 } else { *r.pick(&[0u32, 0, 0, 2]) };
         let coin = gen_coin(r, kind);
         let n_assets = if with_assets { match stream { 3 => r.range(5, 30), _ => r.below(5) } } else { 0 };
-        utxos.push((id, Val { coin: b64(coin), assets: gen_assets(r, n_assets, n_pol, stream == 3) }));
+        let assets = if stream == 8 || (matches!(stream, 5 | 7) && r.chance(1, 4)) { if r.chance(4, 5) { gen_degenerate_assets(r) } else { gen_assets(r, n_assets, n_pol, false) } }
+                     else { gen_assets(r, n_assets, n_pol, stream == 3) };
+        utxos.push((id, Val { coin: b64(coin), assets }));
     }
     if r.chance(1, 12) { utxos.push((4, Val::ada(r.range(2_000_000, 9_000_000)))); }
     // operations before balancing
@@ -902,7 +951,17 @@ fn gen_scenario(r: &mut Rng, stream: u32) -> Scenario {
     if matches!(stream, 4 | 6) || r.chance(1, 6) {
         if r.chance(1, 2) { pre.push(Op::Certs(Some(gen_certs(r, edge)))); }
         if r.chance(1, 2) { let n = r.range(1, 3); pre.push(Op::Wd(Some((0..n).map(|_| (r.range(1, 6), b64(if edge { r.u64_edge() } else { r.range(0, 3_000_000) }))).collect()))); }
-        if r.chance(1, 3) { let n = r.range(1, 2); pre.push(Op::Props(Some((0..n).map(|_| b64(if edge { r.u64_edge() } else { r.range(0, 4_000_000) })).collect()))); }
+        if r.chance(1, 3) {
+            let n = r.range(1, 2);
+            if r.chance(1, 2) { pre.push(Op::Props(Some((0..n).map(|_| b64(if edge { r.u64_edge() } else { r.range(0, 4_000_000) })).collect()))); }
+            else {
+                // with identities: the same proposal may be added more than once
+                let mut ps: Vec<(u64, BigNum)> = (0..n).map(|i| (i, b64(if edge { r.u64_edge() } else { r.range(0, 4_000_000) }))).collect();
+                if r.chance(2, 3) { let x = ps[r.below(ps.len() as u64) as usize].clone(); ps.push(x); }
+                if r.chance(1, 4) { let x = ps[0].clone(); ps.push((x.0, b64(u64::from(x.1) / 2 + 1))); }
+                pre.push(Op::KProps(ps));
+            }
+        }
         if r.chance(1, 3) { pre.push(Op::Don(b64(if edge { r.u64_edge() } else { r.range(0, 2_000_000) }))); }
         if r.chance(1, 4) { pre.push(Op::Treas(b64(r.below(3) * 1_000_000_000))); }
         if r.chance(1, 8) { pre.push(Op::Certs(None)); }
@@ -911,7 +970,7 @@ fn gen_scenario(r: &mut Rng, stream: u32) -> Scenario {
         let n_mint = r.below(4);
         for _ in 0..n_mint {
             let burn = r.chance(1, 2);
-            let holders: Vec<&(Vec<u8>, Vec<u8>, BigNum)> = utxos.iter().filter_map(|(_, v)| v.assets.as_ref()).flat_map(|es| es.iter()).collect();
+            let holders: Vec<&(Vec<u8>, Vec<u8>, BigNum)> = utxos.iter().filter_map(|(_, v)| v.assets.as_ref()).flat_map(|es| es.iter()).filter(|e| e.1 != empty_policy_marker()).collect();
             if burn && !holders.is_empty() {
                 let (p, n, q) = (*r.pick(&holders)).clone();
                 let q64: u64 = q.into();
@@ -961,7 +1020,7 @@ fn gen_scenario(r: &mut Rng, stream: u32) -> Scenario {
                 let id = 400 + 5 * k + r.below(4);
                 let coin = if r.chance(1, 8) { r.u64_edge() } else { r.range(1_000_000, 20_000_000) };
                 let na = r.range(1, 3);
-                let assets = if r.chance(1, 6) { gen_assets(r, na, n_pol, false) } else { None };
+                let assets = if r.chance(1, 4) { gen_degenerate_assets(r) } else if r.chance(1, 6) { gen_assets(r, na, n_pol, false) } else { None };
                 utxos.push((id, Val { coin: b64(coin), assets }));
                 cols.push(id);
             }
@@ -979,7 +1038,7 @@ fn gen_scenario(r: &mut Rng, stream: u32) -> Scenario {
         }
         _ => {
             post.push(Op::Change(change_addr, *r.pick(&[0u64, 0, 0, 1, 2])));
-            label = match stream { 0 => "ada", 1 => "tight", 2 => "assets", 3 => "pack", 4 => "mix", _ => "edge" };
+            label = match stream { 0 => "ada", 1 => "tight", 2 => "assets", 3 => "pack", 4 => "mix", 8 => "degen", _ => "edge" };
         }
     }
     if r.chance(1, 10) { post.push(Op::Change(change_addr, 0)); }           // a second change attempt
@@ -1021,7 +1080,7 @@ fn main() {
             let mut r = Rng::new(seed_from_env());
             let n = if is_thorough() { 100000 } else { 2400 };
             for k in 0..n {
-                let stream = match k % 14 { 0 | 1 => 0, 2 => 1, 3 | 4 => 2, 5 | 6 => 3, 7 | 8 => 4, 9 | 10 => 5, 11 => 6, _ => 7 };
+                let stream = match k % 16 { 0 | 1 => 0, 2 => 1, 3 | 4 => 2, 5 | 6 => 3, 7 | 8 => 4, 9 | 10 => 5, 11 => 6, 12 | 13 => 7, _ => 8 };
                 let mut sc = gen_scenario(&mut r, stream);
                 if matches!(stream, 0 | 1 | 2 | 4) && r.chance(1, 2) {
                     let delta = *r.pick(&[0i64, 0, 0, 0, 1, 1000, 500_000, 900_000, 1_200_000, -1, 2_000_000]);
